@@ -158,7 +158,10 @@ CLAIMS = {
              "event timings) are judged by TraceC14.tla from the tracer records of the parent and of every child: starts "
              "exactly for the states stable at macrostep end, one cancel per running invoke on exit, no child event (by "
              "invoke id) after its cancel, finalize exactly for events of that invoke, forwarded copies exactly for "
-             "autoforward children, params only for declared data, done.invoke once and only for children that finished.",
+             "autoforward children, param and namelist values only for declared data, done.invoke once and only for children that finished "
+             "- and processed whenever it was in the queue before the host sent the event that leaves the state; invokes with explicit and "
+             "with generated ids, an invoke whose argument fails (started at most once), every session ended after its parent. Invoke.tla "
+             "also describes the filter the implementation used before repair d0e4562 (per invoke id) and TLC must keep refuting it.",
         note="Timings are steered (settle pauses, jitter, back-to-back sends), not enumerated; the race outcomes are enumerated only "
              "in Invoke.tla. Whether <finalize> also runs for done.invoke itself is not judged. Only inline <content> children."),
     "C15": dict(
